@@ -44,7 +44,9 @@ class Gen:
         ext = self.r.random() < self.opts.get('ext_names', 0)
         while True:
             n = '_'.join(self.word(ext) for _ in range(self.r.choice([1, 2, 2, 3])))
-            if n not in RESERVED and not keyword.iskeyword(n) and len(n) > 1 or (ext and n not in RESERVED and n.isalpha()):
+            if n in RESERVED or keyword.iskeyword(n) or keyword.issoftkeyword(n):
+                continue
+            if len(n) > 1 or ext:
                 return n
 
     def names(self, k):
